@@ -75,6 +75,9 @@ func (p *pipeBuf) read(w *World, b []byte) (int, syscall.Errno) {
 }
 
 func (p *pipeBuf) write(w *World, b []byte) (int, syscall.Errno) {
+	if len(b) == 0 {
+		return 0, 0 // pipe_write returns before it looks at the readers
+	}
 	if p.rEver && !p.rOpen {
 		return -1, syscall.EPIPE
 	}
